@@ -630,3 +630,7 @@ mutant('W1-mark-only-current-incarnation', ['C01', 'C02'], [
 mutant('N8-next-does-not-revalidate-unconfirmed', ['C01', 'C02'], [
     (S, "                    TransactionStatus::Executed | TransactionStatus::Unconfirmed => {", "                    TransactionStatus::Executed => {"),
 ], ['|N8|'])
+
+mutant('X6-finalize-only-on-success', ['C01', 'C11'], [
+    (EX, "        let state = self.evm.finalize();\n        let result = output.map(|output| output.into_speculative(state));", "        let result = output.map(|output| output.into_speculative(self.evm.finalize()));"),
+], ['|X6|', '|G2|'])
